@@ -194,6 +194,103 @@ func (h *c06Hist) event(r *hx.Rand, p int) string {
 	return ev
 }
 
+// ---- (deep4) key rotation INSIDE the token-issuing request
+//
+// The reference storage's SigningKey is a journalled storage call like any other, so the environment can rotate the key
+// "right before the k-th storage call of this request is answered" (refstore.AtCall, the counting of the fault streams) or
+// "right before the n-th call of method M" (refstore.AtMethodCall: SigningKey itself, the userinfo setters, the private-claims
+// getter, token creation ...). Only ROTATIONS are scheduled inside a request - a new key id, the previous public key stays
+// published, the discovery document names both algorithms: the one kind of key change under which a token signed with the key
+// of either moment still verifies against the key set published when the answer arrives (a storage that withdraws the old key
+// in the middle of a request makes every implementation fail):
+//
+//	rotate      other material of the same algorithm under a new key id
+//	rotate-alg  a key of ANOTHER algorithm (mostly another hash size: RS256 -> ES384 ...) under a new key id
+type c06Inside struct {
+	spec      string // how it was scheduled: "call#k" / "M#n"
+	ev        string
+	fired     bool
+	method    string // the storage call before which it fired
+	at        int    // ... its 1-based number among the storage calls of the request
+	seq0      int
+	prev      c06Cur // the signing key at the start of the request
+	sigBefore int    // SigningKey calls of the request answered before the rotation
+	calls     []string
+}
+
+var c06InsideMethods = []string{"SigningKey", "SigningKey", "SigningKey", "SetUserinfoFromScopes", "SetUserinfoFromScopes", "SetUserinfoFromRequest",
+	"GetPrivateClaimsFromScopes", "SetUserinfoFromTokenExchangeRequest", "CreateAccessToken", "CreateAccessAndRefreshTokens", "DeleteAuthRequest"}
+
+// scheduleInside draws a rotation of provider p's signing key and schedules it inside the next request
+func (h *c06Hist) scheduleInside(r *hx.Rand, p int) *c06Inside {
+	cur, st := h.cur[p], h.beds[p].Store
+	in := &c06Inside{prev: *cur, ev: hx.Pick(r, "rotate", "rotate-alg", "rotate-alg")}
+	alg := cur.alg
+	if in.ev == "rotate-alg" {
+		var algs []string
+		for _, a := range c06Algs {
+			if a != cur.alg {
+				algs = append(algs, a)
+			}
+		}
+		alg = algs[r.Intn(len(algs))]
+	}
+	var pool []*hx.Key
+	for _, c := range c06KeysFor(alg) {
+		if c != cur.k {
+			pool = append(pool, c)
+		}
+	}
+	nk := cur.k
+	if len(pool) > 0 {
+		nk = pool[r.Intn(len(pool))]
+	}
+	h.kidSeq++
+	kid := fmt.Sprintf("sig%d", 1+h.kidSeq)
+	st.AdvertisePublishedAlgs = true
+	in.seq0 = st.Calls()
+	fn := func(method string, seq int) {
+		in.fired, in.method, in.at = true, method, seq-in.seq0
+		st.AddPublishedKey(cur.kid, jose.SignatureAlgorithm(cur.alg), cur.k.Pub, "sig")
+		cur.prev, cur.k, cur.kid, cur.alg = nil, nk, kid, alg
+		st.SetSigningKey(refstore.SigningKeySpec{Kid: cur.kid, Alg: jose.SignatureAlgorithm(cur.alg), Priv: cur.k.Priv, Pub: cur.k.Pub})
+	}
+	if r.Chance(45) {
+		k := 1 + r.Intn(12)
+		in.spec = fmt.Sprintf("call#%d", k)
+		st.AtCall(k, fn)
+	} else {
+		m := c06InsideMethods[r.Intn(len(c06InsideMethods))]
+		n := 1
+		if m == "SigningKey" && r.Chance(40) {
+			n = 2
+		}
+		in.spec = fmt.Sprintf("%s#%d", m, n)
+		st.AtMethodCall(m, n, fn)
+	}
+	return in
+}
+
+// finish: after the request - drops the hook if it did not fire, and reads the storage calls of the request off the journal
+func (in *c06Inside) finish(st *refstore.Store) {
+	st.ClearCallHooks()
+	j := st.Journal()
+	n := st.Calls() - in.seq0
+	if n > len(j) {
+		n = len(j)
+	}
+	for i, c := range j[len(j)-n:] {
+		name := c
+		if k := strings.Index(c, "("); k >= 0 {
+			name = c[:k]
+		}
+		in.calls = append(in.calls, name)
+		if in.fired && i+1 < in.at && name == "SigningKey" {
+			in.sigBefore++
+		}
+	}
+}
+
 var c06AllAlgs = []jose.SignatureAlgorithm{jose.RS256, jose.RS384, jose.RS512, jose.PS256, jose.PS384, jose.PS512, jose.ES256, jose.ES384, jose.ES512, jose.EdDSA}
 
 // c06SignedBy: which key pair of the ring made the signature of the compact JWS (-1: none of them / not a JWS), and the
